@@ -38,6 +38,7 @@ EXPLANATION = (
     "the seeded stdlib global; R19.6 the kill-chain return handler reads history[<its timestep parameter>] (never a fixed "
     "position), every caller passes self.current_timestep, which is written only by update_current_timestep and only "
     "after the handler has examined the previous turn. R19.7 the numeric settings this property depends on are never tested by truthiness (`x or default`, `if x:`) - 0 is a legal value for them. "
+    "R19.8 name agreement: settings copied into a dictionary literal under string keys keep their own name (no crossed entries). "
     "NOT decided: statistical behaviour of the draws, effects of blue actions on success or "
     "failure of red actions, whether emitted action names are in the configured action map, validity of the "
     "credentials/knowledge TAP003 reads from its options."
@@ -1094,6 +1095,34 @@ def r19_6(ctx: Ctx) -> None:
 
 
 
+
+def r19_8(ctx: Ctx) -> None:
+    """Name agreement: a dictionary literal that files settings under string keys, with at least two entries whose value is an
+    attribute chain ending in an attribute that is itself one of the keys, files each such value under its own name.  `{"corrupt":
+    cfg.PAYLOAD.exfiltrate, "exfiltrate": cfg.PAYLOAD.corrupt}` is the slip this finds."""
+    ix = ctx.ix
+    ctx.rule("R19.8", "settings copied into a keyed table keep their name: no two entries of a dictionary literal are crossed")
+    n = 0
+    for f in ix.all_functions():
+        if isinstance(f.node, ast.Lambda) or "/game/agent/" not in f.path:
+            continue
+        for d in ast.walk(f.node):
+            if not isinstance(d, ast.Dict):
+                continue
+            ent = [(k.value, v.attr, v) for k, v in zip(d.keys, d.values) if isinstance(k, ast.Constant) and isinstance(k.value, str)
+                   and isinstance(v, ast.Attribute)]
+            keys = {k for k, _, _ in ent}
+            rel = [(k, a, v) for k, a, v in ent if a in keys]
+            if len(rel) < 2:
+                continue
+            n += 1
+            crossed = [(k, a) for k, a, _ in rel if k != a]
+            ctx.record("R19.8", ctx.key(f, f"table with keys {sorted(keys)[:4]} keeps each setting under its own name"), f.loc(d), not crossed,
+                       f"{len(rel)} entries agree with their keys" if not crossed else
+                       "; ".join(f"key '{k}' is filled from `.{a}`" for k, a in crossed) + " - the settings are crossed")
+    ctx.floor("R19.8", "keyed setting tables", n, 1)
+
+
 def check(ctx: Ctx) -> None:
     agents = r19_1(ctx)
     r19_2(ctx)
@@ -1103,3 +1132,4 @@ def check(ctx: Ctx) -> None:
     r19_6(ctx)
     from .common import falsy_numeric
     falsy_numeric(ctx, "R19.7", r"probability|variance|frequency|start_step|max_executions", "scripted-agent settings")
+    r19_8(ctx)
